@@ -132,8 +132,12 @@ def betas_rule(ctx, facts):
         ctx.ok("BETAS", P2 + "new", "betas[t] == g[t] == m/(m-t-1) for m in {2,3,7,16}, all t (exact rationals)", hirq.loc(facts.fn(P2 + "new")))
     else:
         ctx.violation("BETAS", P2 + "new", "tables disagree", hirq.loc(facts.fn(P2 + "new")), "ProbMinHash2::betas and ProbOrdMinHash2::g, both the increments m/(m-i) of the same race, differ: %s" % detail)
-    # use sites: value += table[counter] * draw ; counter += 1 once per iteration
-    for (fid, table) in ((P2 + "hash_item", "betas"), (POM + "hash_set", "g")):
+    betas_use(ctx, facts)
+
+
+def betas_use(ctx, facts, sites=None):
+    """use sites: value += table[counter] * draw ; counter += 1 once per iteration, whatever the registers answered"""
+    for (fid, table) in (sites or ((P2 + "hash_item", "betas"), (POM + "hash_set", "g"))):
         fn = facts.fn(fid)
         t = tree_of(fn)
         uses = [x for x in user_nodes(fn) if x["k"] == "Index" and nf.nf(x["base"]) == "self.%s" % table]
@@ -207,7 +211,7 @@ def run(ctx, facts):
                           "the numeric value of the rate ln(m/(m-1)) beyond agreement of the three constructors", "single-set position law w_d / sum(w)"]
     C02.run(ctx, facts)
     ctx.extra["explanation"] = ctx.extra["explanation"]
-    lambda_rule(ctx, facts)
+    # LAMBDA is run by C02.run (3 and 3a agree only if they are built with the same rate)
     betas_rule(ctx, facts)
     weight_rule(ctx, facts)
     C14.est_template(ctx, facts, "jaccard::compute_probminhash_jaccard")
